@@ -196,23 +196,29 @@ def injTail : Nat → Inj → Except PyErr Inj
       | .ok u => injTail fuel { st with cur := cur, l := onEndOfSide l u }
     else .ok st
 
-/-- `DiskImageContentInjector.perform` on an image that already has its four sides -/
+/-- the part of `perform` that does not depend on the flavour: the sources loop and the trailing
+    side events; on an exception, the text printed so far -/
+def performCore (w : World) (verbose : Bool) (img : Image) (srcs : List Str) : Except (PyErr × Str) Inj :=
+  let st : Inj := { img := img, cur := 0, l := onBeginOfSide { processing := 2, verbose := verbose } 0 }
+  match injLoop w srcs st with
+  | .error e => .error (e, st.l.out)
+  | .ok st1 =>
+    if st1.cur < 4 then
+      match usageOfSide st1.img st1.cur with
+      | .error e => .error (e, st1.l.out)
+      | .ok u =>
+        match injTail 4 { st1 with l := onEndOfSide st1.l u } with
+        | .error e => .error (e, st1.l.out)
+        | .ok st2 => .ok st2
+    else .ok st1
+
+/-- `DiskImageContentInjector.perform` on an image that already has its four sides: the image
+    is saved whenever the loop completes, and only then -/
 def performOn (fl : Flavour) (w : World) (verbose : Bool) (archive : Str) (img : Image) (srcs : List Str) : Outcome :=
   if img.length < 4 then { status := .raised .indexError } else
-  let st : Inj := { img := img, cur := 0, l := onBeginOfSide { processing := 2, verbose := verbose } 0 }
-  let fail (e : PyErr) (l : DL) : Outcome := { status := .raised e, out := [l.out] }
-  match injLoop w srcs st with
-  | .error e => fail e st.l
-  | .ok st1 =>
-    let fin : Except PyErr Inj :=
-      if st1.cur < 4 then
-        match usageOfSide st1.img st1.cur with
-        | .error e => .error e
-        | .ok u => injTail 4 { st1 with l := onEndOfSide st1.l u }
-      else .ok st1
-    match fin with
-    | .error e => fail e st1.l
-    | .ok st2 => { status := .ret 0, out := [(onDone st2.l).out], writes := [(archive, save fl st2.img)] }
+  match performCore w verbose img srcs with
+  | .error (e, out) => { status := .raised e, out := [out] }
+  | .ok st => { status := .ret 0, out := [(onDone st.l).out], writes := [(archive, save fl st.img)] }
 
 /-- `--create` -/
 def create (fl : Flavour) (w : World) (verbose : Bool) (archive : Str) (srcs : List Str) : Outcome :=
